@@ -134,6 +134,101 @@ def sections_model(ctx):
         ctx.ev.nontrivial(("sections", t["raw"]))
 
 
+# ----------------------------------------------------------------------------- PPT slide list: record-level model
+def _ppt_slides_job(cases):
+    import struct
+    from ..repo import activate
+    activate()
+    import warnings
+    warnings.simplefilter("ignore")
+    from sharepoint2text.parsing.extractors.ms_legacy import ppt_extractor as mod
+    from sharepoint2text.parsing.extractors import data_types as dt
+    from ..docmodel import TOKEN_RE, word
+    parse, build = getattr(mod, "_parse_slide_list_container", None), getattr(mod, "_build_slides_from_text_blocks", None)
+    if parse is None or build is None:
+        return {"skip": "ppt_extractor._parse_slide_list_container / _build_slides_from_text_blocks not found"}
+
+    def rec(ver, inst, rtype, data):
+        return struct.pack("<HHI", (inst << 4) | ver, rtype, len(data)) + data
+
+    def ids(texts):
+        out = []
+        for t in texts:
+            m = TOKEN_RE.fullmatch(t.strip())
+            out.append(int(m.group(1) or m.group(2) or m.group(3)) if m else 999)
+        return out
+    res = []
+    for recs in cases:
+        data = b""
+        for n, r in enumerate(recs):
+            if r[0] == "P":
+                data += rec(0, 0, 0x03F3, struct.pack("<IIiII", n + 1, 0, 1, 256 + n, 0))
+            else:
+                text = word(r[2]) if r[2] else "\x01\x02"       # control characters only: empty after cleaning
+                data += rec(0, 0, 0x0F9F, struct.pack("<I", r[1]))
+                data += (rec(0, 0, 0x0FA8, text.encode("latin-1")) if n % 2 else rec(0, 0, 0x0FA0, text.encode("utf-16-le")))
+        try:
+            content = dt.PptContent()
+            build(content, parse(data))
+            res.append({"slides": [{"title": ids([sl.title] if sl.title else []), "body": ids(sl.body_text), "other": ids(sl.other_text),
+                                    "notes": ids(sl.notes)} for sl in content.slides]})
+        except Exception as e:
+            res.append({"exc": f"{type(e).__name__}: {e}"[:200]})
+    return {"obs": res}
+
+
+def ppt_slides_model(ctx):
+    """PptSlides.tla: theorems on all record sequences, sensitivity run for the as-built empty-slide rule, binding of the
+    real container pass + slide builder to the machine's function."""
+    from concurrent.futures import ProcessPoolExecutor
+    from ..docrun import from_tla
+    from ..tlaval import iter_dump, to_tla
+    from ..tlc import MachineryError, run_tlc_many
+    n = 7 if ctx.thorough else 6
+    invs = "".join(f"INVARIANT {i}\n" for i in ("Inv_StepAgreesWithFunction", "Inv_OneSlidePerPersistAtom", "Inv_TextsOnTheirSlide",
+                                                  "Inv_TitleIsFirstTitle"))
+    cfg = f"SPECIFICATION Spec\nCONSTANTS WalkDev = {{}}\n MaxRecs = {n}\n{invs}PROPERTY Prop_Terminates\n"
+    dump = ctx.scratch / "pptslides.dump"
+    r, rs, rg = run_tlc_many([
+        ("PptSlides", cfg, dict(scratch=ctx.scratch, expect_fail=True, heap="6g", workers=6)),
+        ("PptSlides", cfg.replace("WalkDev = {}", 'WalkDev = {"Ppt!EmptySlideDropped"}').replace(f"MaxRecs = {n}", "MaxRecs = 5"),
+         dict(scratch=ctx.scratch, expect_fail=True, workers=4)),
+        ("PptSlides", f"SPECIFICATION GenSpec\nCONSTANTS WalkDev = {{}}\n MaxRecs = {n}\n", dict(scratch=ctx.scratch, dump=dump, workers=4))])
+    ctx.ev.tlc(f"PptSlides MaxRecs={n}: one slide per persist atom, texts on their slide, first title is the title", r)
+    if r.violated:
+        ctx.v.violation(what=f"PptSlides.tla: the strict model violates {r.violated}", observed=r.output[-1500:])
+    ctx.ev.tlc("PptSlides sensitivity: the as-built empty-slide rule must violate OneSlidePerPersistAtom", rs, note="expected violation")
+    if not rs.violated:
+        raise MachineryError("PptSlides sensitivity run did not fail")
+    ctx.ev.tlc("PptSlides GenSpec: record sequences", rg)
+    cases = sorted((from_tla(st["recs"]) for st in iter_dump(dump)), key=lambda c: json.dumps(c))
+    if len(cases) != rg.distinct:
+        raise MachineryError(f"PptSlides dump {len(cases)} != {rg.distinct}")
+    chunks = [cases[k:k + 1500] for k in range(0, len(cases), 1500)]
+    with ProcessPoolExecutor(8) as ex:
+        obs = list(ex.map(_ppt_slides_job, chunks))
+    traces = []
+    for ch, o in zip(chunks, obs):
+        if "skip" in o:
+            ctx.log("ppt-slides binding skipped: " + o["skip"])
+            return
+        for recs, x in zip(ch, o["obs"]):
+            if "exc" in x:
+                ctx.v.violation(what=f"ppt slide list parse raised on {recs}: {x['exc']}", case={"recs": recs})
+                continue
+            traces.append({"id": f"pptslides:{len(traces)}", "hdr": {"fmt": "ppt", "doc": {"recs": recs}}, "raw": json.dumps(x["slides"])[:300],
+                           "ev": [{"a": "Slides", "recs": recs, "slides": x["slides"]}]})
+
+    def cfgfn(dev):
+        return f"SPECIFICATION TraceSpec\nCONSTANTS WalkDev = {to_tla(set(dev))}\nCONSTRAINT TraceAccept\n"
+    validate_with_findings(ctx, "PptSlidesTrace", traces, {"KF-C03-11": "Ppt!EmptySlideDropped"},
+                           lambda t, e: f"ppt slide list differs from PptSlides.tla: records {json.dumps(e['recs'])[:200]} -> slides {t['raw']}",
+                           lambda t: "ppt_extractor.py:_parse_slide_list_container / _build_slides_from_text_blocks", cfg=cfgfn)
+    ctx.ev.replayed(len(traces))
+    for t in traces[:: max(1, len(traces) // 200)]:
+        ctx.ev.nontrivial(("pptslides", t["raw"]))
+
+
 def run(ctx):
     ev = ctx.ev
     rng = random.Random(ctx.seed)
@@ -166,6 +261,7 @@ def run(ctx):
                            lambda t: f"data_types.py iterate_units / get_full_text of the {t['hdr']['fmt']} result type")
     ev.replayed(len(traces))
     sections_model(ctx)
+    ppt_slides_model(ctx)
     ev.set(rule="same TLC-enumerated document suite as C02 (flow documents incl. headings; decks / workbooks / paged "
                 "documents of 1..3 units incl. empty units) x formats; non-trivial = multi-unit or non-empty unit text",
            exhaustive=bool(ctx.thorough), constants={"flow_formats": FLOW_FORMATS, "multi_unit_formats": MULTI,
